@@ -1,8 +1,8 @@
 package main
 
 import (
-	"encoding/hex"
 	"bytes"
+	"encoding/hex"
 	"fmt"
 	"os"
 	"path/filepath"
@@ -845,9 +845,9 @@ func streamC20(c *Ctx) {
 }
 
 // codecBytes: the byte-level model of the codec (Model/Msgpack.lean) against the real functions, both directions:
-//   * the bytes document.Encode produced, decoded by the MODEL's decoder, give the document (any entry order);
-//   * the bytes the MODEL's encoder produces, decoded by document.Decode, give the document;
-//   * the two byte strings have the same length, and are identical when no map has more than one entry (Go writes
+//   - the bytes document.Encode produced, decoded by the MODEL's decoder, give the document (any entry order);
+//   - the bytes the MODEL's encoder produces, decoded by document.Decode, give the document;
+//   - the two byte strings have the same length, and are identical when no map has more than one entry (Go writes
 //     the entries of a map in random order, the model in key order).
 func codecBytes(c *Ctx, dr *Driver, m map[string]interface{}, enc []byte) bool {
 	want := canonDoc(m)
